@@ -355,6 +355,26 @@ func C01(p *core.Program, r *core.Report) {
 					continue
 				}
 				cut := nonNilCut(fn, v)
+				// DOM invariant as a rule: the elements that dom.GetElementsByTagName(R, ..) lists are
+				// proper descendants of R, each of which has a parent (detaching a listed element
+				// clears only its own links); dom.QuerySelectorAll(R, ..) may list R itself, so there
+				// the Parent of an element counts as present only where the element was decided
+				// different from R
+				if root, list, self := listedDescendantParent(v); list != nil {
+					if !self {
+						nSink += len(derefs)
+						continue
+					}
+					rs := c.Of(root)
+					es := c.Of(list)
+					reSame := regexp.MustCompile("^(" + regexp.QuoteMeta(es+" == "+rs) + "|" + regexp.QuoteMeta(rs+" == "+es) + ")$")
+					// like a nil test: the edges on which the element is known to differ from R are
+					// removed; what stays reachable may see R itself (whose Parent may be nil)
+					differs, m := core.CutAtoms(p, fn, reSame, false)
+					if len(m) > 0 {
+						cut = core.Union(cut, differs)
+					}
+				}
 				for _, d := range derefs {
 					nSink++
 					what := "field access"
@@ -1119,4 +1139,37 @@ func pureBetween(a, b *ssa.BasicBlock) bool {
 		}
 	}
 	return true
+}
+
+// listedDescendantParent: v is `x.Parent` for an element x of the list returned by
+// dom.GetElementsByTagName(R, ..) or dom.QuerySelectorAll(R, ..). It returns R, the element x
+// and whether the list may contain R itself (QuerySelectorAll).
+func listedDescendantParent(v ssa.Value) (root, elem ssa.Value, mayBeRoot bool) {
+	ld, ok := v.(*ssa.UnOp)
+	if !ok || ld.Op != token.MUL {
+		return nil, nil, false
+	}
+	fa, ok := ld.X.(*ssa.FieldAddr)
+	if !ok || core.FieldNameOf(fa) != "Parent" {
+		return nil, nil, false
+	}
+	x, ok := core.StripConv(fa.X).(*ssa.UnOp)
+	if !ok || x.Op != token.MUL {
+		return nil, nil, false
+	}
+	ia, ok := x.X.(*ssa.IndexAddr)
+	if !ok {
+		return nil, nil, false
+	}
+	call, ok := core.StripConv(ia.X).(*ssa.Call)
+	if !ok || len(call.Call.Args) < 1 {
+		return nil, nil, false
+	}
+	switch {
+	case core.IsCallTo(call, "github.com/go-shiori/dom.GetElementsByTagName"):
+		return call.Call.Args[0], x, false
+	case core.IsCallTo(call, "github.com/go-shiori/dom.QuerySelectorAll"):
+		return call.Call.Args[0], x, true
+	}
+	return nil, nil, false
 }
